@@ -820,7 +820,7 @@ pub fn check(ctx: &Ctx) {
     ];
     let mut gc = Vec::new();
     for k in kinds {
-        let seeds: u64 = if k == KeyKind::Rsa2048V4 { if deep { 8 } else { 2 } } else if deep { 3000 } else { 300 };
+        let seeds: u64 = if k == KeyKind::Rsa2048V4 { if deep { 8 } else { 2 } } else if deep { 12_000 } else { 300 };
         for seed in 0..seeds {
             gc.push(GenCase { kind: k, seed: 500 + seed });
         }
@@ -828,7 +828,7 @@ pub fn check(ctx: &Ctx) {
     ctx.run_space(
         "generated_keys",
         true,
-        "generated certificates of 10 key kinds x seeds (300 / 3000, RSA 2 / 8; P-521 and legacy EdDSA yield leading-zero MPIs regularly): primary and subkey fingerprints / key ids = reference value; all wrappers agree; issuer subpackets of self-signatures and bindings name the primary, those of the embedded back signature name the subkey; a data signature made through each signing entry point that chooses issuer subpackets itself (detached binary / text, cleartext framework, MessageBuilder::sign) embeds the signer's fingerprint (with the right version octet) and key id (v4 only) and match_identity selects exactly the signer; PKESK v3 key id / v6 fingerprint name the encryption subkey and match_identity selects exactly it",
+        "generated certificates of 10 key kinds x seeds (300 / 12000, RSA 2 / 8; P-521 and legacy EdDSA yield leading-zero MPIs regularly): primary and subkey fingerprints / key ids = reference value; all wrappers agree; issuer subpackets of self-signatures and bindings name the primary, those of the embedded back signature name the subkey; a data signature made through each signing entry point that chooses issuer subpackets itself (detached binary / text, cleartext framework, MessageBuilder::sign) embeds the signer's fingerprint (with the right version octet) and key id (v4 only) and match_identity selects exactly the signer; PKESK v3 key id / v6 fingerprint name the encryption subkey and match_identity selects exactly it",
         gc.into_par_iter(),
         run_generated,
     );
